@@ -99,6 +99,8 @@ pub struct MintInfo {
     pub program: Pubkey,
     /// Token-2022 transfer fee (basis points, max) if configured
     pub transfer_fee: Option<(u16, u64)>,
+    /// Token-2022 transfer-hook program if configured
+    pub hook: Option<Pubkey>,
 }
 
 #[derive(Clone, Debug)]
@@ -201,7 +203,7 @@ impl World {
         let native_loader = Pubkey::from_str("NativeLoader1111111111111111111111111111111").unwrap();
         let prog = |owner: Pubkey| Acct { lamports: 1, data: vec![], owner, executable: true };
         bank.set(SYS, prog(native_loader));
-        for p in [TOKEN, TOKEN22, ATA, MEMO, WP, metadata_program()] {
+        for p in [TOKEN, TOKEN22, ATA, MEMO, WP, metadata_program(), crate::rt::hook_program(1), crate::rt::hook_program(2)] {
             bank.set(p, prog(loader));
         }
         bank.set(
@@ -332,7 +334,7 @@ impl World {
         spl_token::state::Mint { mint_authority: Some(self.admin).into(), supply: 0, decimals: 6, is_initialized: true, freeze_authority: None.into() }
             .pack_into_slice(&mut d);
         self.bank.set(k, Acct { lamports: 10_000_000, data: d, owner: TOKEN, executable: false });
-        MintInfo { key: k, program: TOKEN, transfer_fee: None }
+        MintInfo { key: k, program: TOKEN, transfer_fee: None, hook: None }
     }
 
     /// Token-2022 mint created by the real processor; optional transfer-fee extension
@@ -341,7 +343,18 @@ impl World {
         self.create_t22_mint_at(k, transfer_fee)
     }
     pub fn create_t22_mint_at(&mut self, k: Pubkey, transfer_fee: Option<(u16, u64)>) -> MintInfo {
-        let exts: Vec<ExtensionType> = if transfer_fee.is_some() { vec![ExtensionType::TransferFeeConfig] } else { vec![] };
+        self.create_t22_mint_ext(k, transfer_fee, None)
+    }
+    /// Token-2022 mint created by the real processor with an optional transfer fee and an optional transfer hook
+    pub fn create_t22_mint_hooked(&mut self, transfer_fee: Option<(u16, u64)>, hook: Option<Pubkey>) -> MintInfo {
+        let k = self.fresh_key();
+        self.create_t22_mint_ext(k, transfer_fee, hook)
+    }
+    pub fn create_t22_mint_ext(&mut self, k: Pubkey, transfer_fee: Option<(u16, u64)>, hook: Option<Pubkey>) -> MintInfo {
+        let mut exts: Vec<ExtensionType> = if transfer_fee.is_some() { vec![ExtensionType::TransferFeeConfig] } else { vec![] };
+        if hook.is_some() {
+            exts.push(ExtensionType::TransferHook);
+        }
         let len = ExtensionType::try_calculate_account_len::<spl_token_2022::state::Mint>(&exts).unwrap();
         self.bank.set(k, Acct { lamports: 100_000_000, data: vec![0; len], owner: TOKEN22, executable: false });
         let admin = self.admin;
@@ -352,8 +365,11 @@ impl World {
                 )
                 .unwrap();
         }
+        if let Some(h) = hook {
+            self.bank.process_native(&spl_token_2022::extension::transfer_hook::instruction::initialize(&TOKEN22, &k, Some(admin), Some(h)).unwrap()).unwrap();
+        }
         self.bank.process_native(&spl_token_2022::instruction::initialize_mint2(&TOKEN22, &k, &admin, None, 6).unwrap()).unwrap();
-        MintInfo { key: k, program: TOKEN22, transfer_fee }
+        MintInfo { key: k, program: TOKEN22, transfer_fee, hook }
     }
 
     /// the transfer fee the token program applies to `mint` at the bank's current epoch (read from the mint account with the
@@ -414,7 +430,10 @@ impl World {
             .pack_into_slice(&mut d);
             self.bank.set(t, Acct { lamports: 10_000_000, data: d, owner: TOKEN, executable: false });
         } else {
-            let exts: Vec<ExtensionType> = if mint.transfer_fee.is_some() { vec![ExtensionType::TransferFeeAmount] } else { vec![] };
+            let mut exts: Vec<ExtensionType> = if mint.transfer_fee.is_some() { vec![ExtensionType::TransferFeeAmount] } else { vec![] };
+            if mint.hook.is_some() {
+                exts.push(ExtensionType::TransferHookAccount);
+            }
             let len = ExtensionType::try_calculate_account_len::<spl_token_2022::state::Account>(&exts).unwrap();
             self.bank.set(t, Acct { lamports: 100_000_000, data: vec![0; len], owner: TOKEN22, executable: false });
             self.bank.process_native(&spl_token_2022::instruction::initialize_account3(&TOKEN22, &t, &mint.key, owner).unwrap()).unwrap();
@@ -591,6 +610,45 @@ impl World {
         out
     }
 
+    /// A v2 instruction built with `remaining_accounts_info: None` (the last byte of its data) re-issued with the given slices
+    /// (accounts type number, keys) appended; unchanged when there is no slice.
+    pub fn with_remaining(mut ix: Instruction, slices: &[(u8, Vec<Pubkey>)]) -> Instruction {
+        let slices: Vec<&(u8, Vec<Pubkey>)> = slices.iter().filter(|(_, k)| !k.is_empty()).collect();
+        if slices.is_empty() {
+            return ix;
+        }
+        assert_eq!(ix.data.pop(), Some(0), "instruction was built with remaining accounts already");
+        ix.data.push(1);
+        ix.data.extend_from_slice(&(slices.len() as u32).to_le_bytes());
+        for (t, keys) in &slices {
+            ix.data.push(*t);
+            ix.data.push(keys.len() as u8);
+        }
+        for (_, keys) in slices {
+            for k in keys {
+                ix.accounts.push(solana_program::instruction::AccountMeta::new_readonly(*k, false));
+            }
+        }
+        ix
+    }
+    /// undo `with_remaining` for an instruction decorated with `n_slices` slices holding `n_keys` keys in total
+    pub fn strip_remaining(mut ix: Instruction, n_slices: usize, n_keys: usize) -> Instruction {
+        if n_slices == 0 {
+            return ix;
+        }
+        let tail = 1 + 4 + 2 * n_slices;
+        let l = ix.data.len();
+        ix.data.truncate(l - tail);
+        ix.data.push(0);
+        let a = ix.accounts.len();
+        ix.accounts.truncate(a - n_keys);
+        ix
+    }
+    /// the accounts a transfer of `mint` needs for its transfer hook (the hook program; these hooks use no extra accounts)
+    pub fn hook_accounts(mint: &MintInfo) -> Vec<Pubkey> {
+        mint.hook.map(|h| vec![h]).unwrap_or_default()
+    }
+
     // ---- swaps -----------------------------------------------------------------------------------
     pub fn ix_swap(&self, pool: usize, user: usize, p: &SwapParams) -> Instruction {
         let tas = self.swap_arrays(pool, p.a_to_b);
@@ -632,14 +690,8 @@ impl World {
         self.ix_swap_v2_with_arrays(pool, user, p, tas, &[])
     }
     pub fn ix_swap_v2_with_arrays(&self, pool: usize, user: usize, p: &SwapParams, tas: [Pubkey; 3], supplemental: &[Pubkey]) -> Instruction {
-        use whirlpool::util::remaining_accounts_utils::{AccountsType, RemainingAccountsInfo, RemainingAccountsSlice};
         let pl = &self.pools[pool];
-        let rai = if supplemental.is_empty() {
-            None
-        } else {
-            Some(RemainingAccountsInfo { slices: vec![RemainingAccountsSlice { accounts_type: AccountsType::SupplementalTickArrays, length: supplemental.len() as u8 }] })
-        };
-        let mut ix = ixb(
+        let ix = ixb(
             wa::SwapV2 {
                 token_program_a: pl.mint_a.program,
                 token_program_b: pl.mint_b.program,
@@ -663,11 +715,16 @@ impl World {
                 sqrt_price_limit: p.sqrt_price_limit,
                 amount_specified_is_input: p.exact_in,
                 a_to_b: p.a_to_b,
-                remaining_accounts_info: rai,
+                remaining_accounts_info: None,
             },
         );
-        for s in supplemental {
-            ix.accounts.push(solana_program::instruction::AccountMeta::new(*s, false));
+        // TransferHookA, TransferHookB, SupplementalTickArrays
+        let mut ix = World::with_remaining(ix, &[(0, World::hook_accounts(&pl.mint_a)), (1, World::hook_accounts(&pl.mint_b)), (6, supplemental.to_vec())]);
+        // supplemental tick arrays are writable accounts
+        for m in ix.accounts.iter_mut() {
+            if supplemental.contains(&m.pubkey) {
+                m.is_writable = true;
+            }
         }
         ix
     }
@@ -948,19 +1005,28 @@ impl World {
 
     pub fn ix_increase(&self, pos: usize, liquidity: u128, max_a: u64, max_b: u64, v2: bool) -> Instruction {
         if v2 {
-            ixb(self.modify_accounts_v2(pos), wi::IncreaseLiquidityV2 { liquidity_amount: liquidity, token_max_a: max_a, token_max_b: max_b, remaining_accounts_info: None })
+            self.hooked_ab(self.positions[pos].pool, ixb(self.modify_accounts_v2(pos), wi::IncreaseLiquidityV2 { liquidity_amount: liquidity, token_max_a: max_a, token_max_b: max_b, remaining_accounts_info: None }))
         } else {
             ixb(self.modify_accounts_v1(pos), wi::IncreaseLiquidity { liquidity_amount: liquidity, token_max_a: max_a, token_max_b: max_b })
         }
     }
     pub fn ix_decrease(&self, pos: usize, liquidity: u128, min_a: u64, min_b: u64, v2: bool) -> Instruction {
         if v2 {
-            ixb(self.modify_accounts_v2(pos), wi::DecreaseLiquidityV2 { liquidity_amount: liquidity, token_min_a: min_a, token_min_b: min_b, remaining_accounts_info: None })
+            self.hooked_ab(self.positions[pos].pool, ixb(self.modify_accounts_v2(pos), wi::DecreaseLiquidityV2 { liquidity_amount: liquidity, token_min_a: min_a, token_min_b: min_b, remaining_accounts_info: None }))
         } else {
             ixb(self.modify_accounts_v1(pos), wi::DecreaseLiquidity { liquidity_amount: liquidity, token_min_a: min_a, token_min_b: min_b })
         }
     }
+    /// hook slices TransferHookA (0) / TransferHookB (1) for the pool's mints
+    pub fn hooked_ab(&self, pool: usize, ix: Instruction) -> Instruction {
+        let pl = &self.pools[pool];
+        World::with_remaining(ix, &[(0, World::hook_accounts(&pl.mint_a)), (1, World::hook_accounts(&pl.mint_b))])
+    }
     pub fn ix_increase_by_amounts(&self, pos: usize, max_a: u64, max_b: u64, min_sqrt_price: u128, max_sqrt_price: u128) -> Instruction {
+        let pool = self.positions[pos].pool;
+        self.hooked_ab(pool, self.ix_increase_by_amounts_plain(pos, max_a, max_b, min_sqrt_price, max_sqrt_price))
+    }
+    fn ix_increase_by_amounts_plain(&self, pos: usize, max_a: u64, max_b: u64, min_sqrt_price: u128, max_sqrt_price: u128) -> Instruction {
         ixb(
             self.modify_accounts_v2(pos),
             wi::IncreaseLiquidityByTokenAmountsV2 {
@@ -974,7 +1040,8 @@ impl World {
         let p = &self.positions[pos];
         let pl = &self.pools[p.pool];
         let (tl, tu) = self.pos_arrays(pos);
-        ixb(
+        let (ha, hb) = (World::hook_accounts(&pl.mint_a), World::hook_accounts(&pl.mint_b));
+        let ix = ixb(
             wa::RepositionLiquidityV2 {
                 whirlpool: pl.key,
                 token_program_a: pl.mint_a.program,
@@ -1008,7 +1075,9 @@ impl World {
                 },
                 remaining_accounts_info: None,
             },
-        )
+        );
+        // TransferHookDepositA / DepositB / WithdrawalA / WithdrawalB
+        World::with_remaining(ix, &[(9, ha.clone()), (10, hb.clone()), (11, ha), (12, hb)])
     }
 
     pub fn ix_update_fees(&self, pos: usize) -> Instruction {
@@ -1021,7 +1090,7 @@ impl World {
         let pl = &self.pools[p.pool];
         let ownerk = self.users[p.owner].key;
         if v2 {
-            ixb(
+            let ix = ixb(
                 wa::CollectFeesV2 {
                     whirlpool: pl.key,
                     position_authority: ownerk,
@@ -1038,7 +1107,8 @@ impl World {
                     memo_program: MEMO,
                 },
                 wi::CollectFeesV2 { remaining_accounts_info: None },
-            )
+            );
+            return self.hooked_ab(p.pool, ix);
         } else {
             ixb(
                 wa::CollectFees {
@@ -1060,7 +1130,7 @@ impl World {
         let pl = &self.pools[pool];
         let c = &self.configs[pl.config];
         if v2 {
-            ixb(
+            let ix = ixb(
                 wa::CollectProtocolFeesV2 {
                     whirlpools_config: c.key,
                     whirlpool: pl.key,
@@ -1076,7 +1146,8 @@ impl World {
                     memo_program: MEMO,
                 },
                 wi::CollectProtocolFeesV2 { remaining_accounts_info: None },
-            )
+            );
+            return self.hooked_ab(pool, ix);
         } else {
             ixb(
                 wa::CollectProtocolFees {
@@ -1161,7 +1232,7 @@ impl World {
         let ownerk = self.users[p.owner].key;
         let r = &pl.rewards[index as usize];
         if v2 {
-            ixb(
+            let ix = ixb(
                 wa::CollectRewardV2 {
                     whirlpool: pl.key,
                     position_authority: ownerk,
@@ -1174,7 +1245,9 @@ impl World {
                     memo_program: MEMO,
                 },
                 wi::CollectRewardV2 { reward_index: index, remaining_accounts_info: None },
-            )
+            );
+            // TransferHookReward
+            return World::with_remaining(ix, &[(2, World::hook_accounts(&r.mint))]);
         } else {
             ixb(
                 wa::CollectReward {
@@ -1333,10 +1406,18 @@ impl World {
             )
         };
         // adaptive-fee pools need their oracle writable
+        let mut ix = ix;
         for m in ix.accounts.iter_mut() {
             if (m.pubkey == one.oracle && one.adaptive) || (m.pubkey == two.oracle && two.adaptive) {
                 m.is_writable = true;
             }
+        }
+        if v2 {
+            // TransferHookInput / Intermediate / Output
+            let m_in = if p.a_to_b_one { &one.mint_a } else { &one.mint_b };
+            let m_mid = if p.a_to_b_one { &one.mint_b } else { &one.mint_a };
+            let m_out = if p.a_to_b_two { &two.mint_b } else { &two.mint_a };
+            ix = World::with_remaining(ix, &[(3, World::hook_accounts(m_in)), (4, World::hook_accounts(m_mid)), (5, World::hook_accounts(m_out))]);
         }
         ix
     }
